@@ -356,7 +356,10 @@ PyObject* HTMC::cbincount(double rmin, // units of scale*angle in radians
                             double logr = logscale + log10(dis);
 
                             int radbin = (int) ( (logr-logrmin)/log_binsize );
-                            if (radbin >=0 && radbin < nbin) {
+                            // the conversion to int rounds toward zero, so
+                            // separations just below rmin would land in bin 0:
+                            // test the lower edge on logr itself
+                            if (logr >= logrmin && radbin < nbin) {
                                 npy_int64 *cptr = (npy_int64 *) PyArray_GETPTR1((PyArrayObject *) counts_array, radbin);
                                 *cptr += 1;
                                 totcount+=1;
